@@ -687,6 +687,14 @@ class BoboDistributedTCP(BoboDistributed,
                         raise BoboDistributedSystemError(
                             "Invalid ID key for URN '{}'".format(device.urn))
 
+                    # Validate type and payload before any state is changed
+                    if pt_type == _TYPE_SYNC or pt_type == _TYPE_RESYNC:
+                        incoming = self._incoming_from_json(pt_json)
+
+                    elif pt_type != _TYPE_PING:
+                        raise BoboDistributedSystemError(
+                            "Unknown message type '{}'.".format(pt_type))
+
                     # Update address if remote address has changed
                     if client_addr != device.addr:
                         logging.debug(
@@ -696,8 +704,6 @@ class BoboDistributedTCP(BoboDistributed,
                         device.addr = client_addr
 
                     if pt_type == _TYPE_SYNC or pt_type == _TYPE_RESYNC:
-                        incoming = self._incoming_from_json(pt_json)
-
                         logging.debug("{} Data from {}: {}"
                                       .format(self._urn, pt_urn, incoming))
 
